@@ -104,6 +104,16 @@ impl SymbolTable {
         symbol
     }
 
+    // The bindings made in a block are not visible once the block has ended
+    pub fn end_block(&mut self, depth: usize) {
+        for symbols in self.store.values_mut() {
+            symbols.retain(|symbol| {
+                symbol.depth < depth
+                    || !matches!(symbol.scope, SymbolScope::Global | SymbolScope::Local)
+            });
+        }
+    }
+
     pub fn define_function_name(&mut self, name: &str) -> Rc<Symbol> {
         let symbol = Rc::new(Symbol::new(name, SymbolScope::Function, 0, 0));
         self.store
@@ -122,15 +132,19 @@ impl SymbolTable {
     pub fn resolve(&mut self, name: &str, depth: usize) -> Option<Rc<Symbol>> {
         if let Some(symbols) = self.store.get(name) {
             for symbol in symbols.iter().rev() {
-                if symbol.depth <= depth {
+                // A captured symbol keeps the depth it has in its own scope;
+                // it is visible in the whole function that captured it
+                if symbol.depth <= depth || symbol.scope == SymbolScope::Free {
                     return Some(Rc::clone(symbol));
                 }
             }
         }
         // Not visible here (absent, or defined only in a deeper block):
-        // look in the enclosing scope
+        // look in the enclosing scope. Its table holds exactly the bindings
+        // of the blocks that are open where this function is written, so the
+        // depth of a block inside this function does not apply there.
         if let Some(outer) = &mut self.outer {
-            if let Some(obj) = outer.resolve(name, depth) {
+            if let Some(obj) = outer.resolve(name, usize::MAX) {
                 if matches!(
                     obj.scope,
                     SymbolScope::Global | SymbolScope::BuiltinFn | SymbolScope::BuiltinVar
